@@ -11,7 +11,6 @@ import (
 
 // ---- LinkMC.tla: the layout space inside TLC, bound to the real decorator ----
 
-
 type mcEntry struct {
 	E bool
 	C string
@@ -20,6 +19,77 @@ type mcLayout struct {
 	Shape []bool
 	Gaps  [][]mcEntry
 	Frags [][]interface{}
+	// LinkMCD (a whole file): comments in front of the package clause, declaration kinds, the gap
+	// inside every grouped declaration
+	Lead  []mcEntry
+	Decls []string
+	Igaps [][]mcEntry
+}
+
+// mcLayoutD is the JSON form of a LinkMCD layout (shape is a list of strings there).
+type mcLayoutD struct {
+	Lead  []mcEntry
+	Shape []string
+	Gaps  [][]mcEntry
+	Igaps [][]mcEntry
+	Frags [][]interface{}
+}
+
+// mcSourceFile writes a LinkMCD layout out as Go source.
+func mcSourceFile(l mcLayout) string {
+	var lines []string
+	n := 0
+	com := func(line bool) string {
+		n++
+		if line {
+			return fmt.Sprintf("// c%d", n)
+		}
+		return fmt.Sprintf("/* c%d */", n)
+	}
+	gap := func(g []mcEntry) {
+		for _, x := range g {
+			switch x.C {
+			case "TL", "TB":
+				lines[len(lines)-1] += " " + com(x.C == "TL")
+				continue
+			}
+			if x.E {
+				lines = append(lines, "")
+			}
+			switch x.C {
+			case "L1":
+				lines = append(lines, com(true))
+			case "B1":
+				lines = append(lines, com(false))
+			case "L2":
+				lines = append(lines, "\t"+com(true))
+			case "B2":
+				lines = append(lines, "\t"+com(false))
+			}
+		}
+	}
+	for _, x := range l.Lead {
+		lines = append(lines, com(x.C == "L1"))
+		if x.E {
+			lines = append(lines, "")
+		}
+	}
+	lines = append(lines, "package p")
+	gap(l.Gaps[0])
+	for i, k := range l.Decls {
+		switch k {
+		case "var":
+			lines = append(lines, fmt.Sprintf("var x%d int", i))
+		case "func":
+			lines = append(lines, fmt.Sprintf("func f%d() {", i), "}")
+		default:
+			lines = append(lines, "var (", fmt.Sprintf("\ta%d int", i))
+			gap(l.Igaps[i])
+			lines = append(lines, ")")
+		}
+		gap(l.Gaps[i+1])
+	}
+	return strings.Join(lines, "\n") + "\n"
 }
 
 // mcSource writes a LinkMC layout out as Go source.
@@ -99,6 +169,9 @@ func mcCompare(want [][]interface{}, got []decorator.VerifFragment, typ string) 
 			hi = i
 		}
 	}
+	if typ == "File" {
+		lo, hi = 0, len(got)-1 // the File node has no End point: the whole list
+	}
 	if lo < 0 || hi < 0 {
 		return "no " + typ + " in the real fragment list"
 	}
@@ -107,6 +180,9 @@ func mcCompare(want [][]interface{}, got []decorator.VerifFragment, typ string) 
 		return fmt.Sprintf("the real list has %d fragments for the construct, the model built %d", len(real), len(want))
 	}
 	off := real[0].Node - 1
+	if typ == "File" {
+		off = 0
+	}
 	for i, w := range want {
 		r := real[i]
 		node := 0
@@ -131,7 +207,8 @@ func mcCompare(want [][]interface{}, got []decorator.VerifFragment, typ string) 
 }
 
 func c01LinkMC(c *Ctx) bool {
-	return c01LinkMCOf(c, "LinkMC", "MaxClauses", "SwitchStmt", false) && c01LinkMCOf(c, "LinkMCB", "MaxStmts", "BlockStmt", true)
+	return c01LinkMCOf(c, "LinkMC", "MaxClauses", "SwitchStmt", false) && c01LinkMCOf(c, "LinkMCB", "MaxStmts", "BlockStmt", true) &&
+		c01LinkMCOf(c, "LinkMCD", "MaxDecls", "File", false)
 }
 
 func c01LinkMCOf(c *Ctx, module, sizeConst, typ string, block bool) bool {
@@ -180,11 +257,22 @@ func c01LinkMCOf(c *Ctx, module, sizeConst, typ string, block bool) bool {
 	seen := map[string]bool{}
 	for _, b := range behs {
 		var l mcLayout
-		if err := json.Unmarshal([]byte(b), &l); err != nil {
-			c.Infra("bad LinkMC layout: " + err.Error())
-			return false
+		var src string
+		if typ == "File" {
+			var ld mcLayoutD
+			if err := json.Unmarshal([]byte(b), &ld); err != nil {
+				c.Infra("bad LinkMCD layout: " + err.Error())
+				return false
+			}
+			l = mcLayout{Lead: ld.Lead, Decls: ld.Shape, Gaps: ld.Gaps, Igaps: ld.Igaps, Frags: ld.Frags}
+			src = mcSourceFile(l)
+		} else {
+			if err := json.Unmarshal([]byte(b), &l); err != nil {
+				c.Infra("bad LinkMC layout: " + err.Error())
+				return false
+			}
+			src = mcSource(l, block)
 		}
-		src := mcSource(l, block)
 		if !isCanonical([]byte(src)) {
 			continue // gofmt would lay this out differently: outside C01's quantifier
 		}
